@@ -792,12 +792,36 @@ func runStorage(profile string, seed int64, histories, steps int, out *Emitter) 
 							ok = false
 						}
 					}()
+					old := c.A.StorageKeeper.GetParams(c.Ctx())
+					ch := map[string]int64{}
+					if np.CollateralPrice != old.CollateralPrice {
+						ch["CollateralPrice"] = np.CollateralPrice
+					}
+					if np.PricePerTbPerMonth != old.PricePerTbPerMonth {
+						ch["PricePerTbPerMonth"] = np.PricePerTbPerMonth
+					}
+					if np.PolRatio != old.PolRatio {
+						ch["POLRatio"] = np.PolRatio
+					}
+					if np.ReferralCommission != old.ReferralCommission {
+						ch["Referrals"] = np.ReferralCommission
+					}
+					// like a proposal: all changes or none
 					cctx, write := c.Ctx().CacheContext()
-					c.A.StorageKeeper.SetParams(cctx, np)
-					write()
+					if err := c.GovSetParams(cctx, sttypes.ModuleName, ch); err != nil {
+						ok = false
+					} else {
+						write()
+					}
 				}()
 				post, bad := c.storageAbs(g.users)
-				out.Emit(map[string]interface{}{"mod": "storage", "hist": hi, "i": i, "h": c.H, "now": c.T.UnixNano(), "pre": pre, "op": map[string]interface{}{"setParams": post.Params}, "ok": ok, "post": post, "badKeys": bad, "users": g.users})
+				// the op names the parameters governance *asked for*, not what ended up in the store
+				want := map[string]interface{}{}
+				for k, v := range pre.Params {
+					want[k] = v
+				}
+				want["collateralPrice"], want["pricePerTbPerMonth"], want["polRatio"], want["referralCommission"] = np.CollateralPrice, np.PricePerTbPerMonth, np.PolRatio, np.ReferralCommission
+				out.Emit(map[string]interface{}{"mod": "storage", "hist": hi, "i": i, "h": c.H, "now": c.T.UnixNano(), "pre": pre, "op": map[string]interface{}{"setParams": want}, "ok": ok, "post": post, "badKeys": bad, "users": g.users})
 				out.Count(profile+".setParams", ok)
 				continue
 			}
